@@ -44,7 +44,7 @@ def env_for(flavour, prefix, detect_leaks=False, extra_asan=""):
     return e
 
 
-_frame_re = re.compile(r"^\s*#(\d+)\s+0x[0-9a-f]+\s+(?:in\s+)?(\S+)(?:\s+(\S+))?")
+_frame_re = re.compile(r"^\s*#(\d+)\s+(?:0x[0-9a-f]+\s+)?(?:in\s+)?(\S+)(?:\s+(\S+))?")
 
 
 def _frames(lines):
@@ -225,6 +225,9 @@ def collect(prefix):
                 res.append((k, ex))
     for path in sorted(glob.glob(prefix + ".ubsan.*")):
         t = open(path, errors="replace").read()
+        # ASan and UBSan share one runtime and one log_path flag: UBSAN_OPTIONS is parsed last, so ASan/LSan
+        # reports land in the ".ubsan" file as well
+        res += parse_asan(t)
         for k, ex, f, fn, msg in parse_ubsan(t):
             if not is_benign_ubsan(fn, f, msg):
                 res.append((k, ex))
